@@ -70,7 +70,7 @@ Qed.
 Lemma G_pool_push E n t c s : ct E c t -> G E s -> G E (pool_push n t c s).
 Proof.
   intros Hc H. unfold pool_push.
-  set (s1 := if share_of s c then upd_tok t (set_marker false) s else s).
+  set (s1 := if share_of s c then upd_tok t (set_marker None) s else s).
   assert (H1 : G E s1).
   { subst s1. destruct (share_of s c); [|exact H]. apply G_upd_tok; [|exact H]. intros j p _ _ Hp. exact Hp. }
   destruct t as [|i].
@@ -110,10 +110,11 @@ Proof.
       intros w' b' [Heq|Hin]; [|eauto]. inversion Heq; subst. apply (Hw w' false). left. reflexivity.
 Qed.
 
-Lemma G_pool_cancel E t s : G E s -> G E (pool_cancel t s).
+Lemma G_pool_cancel E t rid s : G E s -> G E (pool_cancel t rid s).
 Proof.
-  intros H. unfold pool_cancel. destruct (p_marker (get_tok s t)); [|exact H].
-  set (s1 := upd_tok t (set_marker false) s).
+  intros H. unfold pool_cancel. destruct (p_marker (get_tok s t)) as [o|]; [|exact H].
+  destruct (Nat.eqb o rid); [|exact H].
+  set (s1 := upd_tok t (set_marker None) s).
   assert (H1 : G E s1) by (apply G_upd_tok; [|exact H]; intros j p _ _ Hp; exact Hp).
   destruct t as [|i].
   - cbn [get_tok empty_tok p_waiting release_pending upd_tok]. exact H1.
@@ -320,7 +321,7 @@ Proof.
   set (started := match get_dial s1 rid with Some d => match d_stage d with DNew => false | _ => true end | None => false end).
   set (delayed := match k_inner ck with IDelayDrop => started | _ => false end).
   set (s2 := if delayed then spawn (TDelayed rid (k_token ck) (k_owner ck)) s1
-             else if g_pool cfg && negb (k_token ck =? 0) && k_owner ck then pool_cancel (k_token ck) s1 else s1).
+             else if g_pool cfg && negb (k_token ck =? 0) && k_owner ck then pool_cancel (k_token ck) rid s1 else s1).
   assert (H2 : G E s2).
   { subst s2. destruct delayed.
     - apply G_spawn; [|exact H1]. cbn. apply Hk.
@@ -491,11 +492,11 @@ Proof.
     { apply G_upd_tok; [|exact H2]. intros j q Hj _ [Hi Hw]. inversion Hj; subst j. split; [exact Hi|].
       cbn. intros w b Hin. apply in_app_or in Hin. destruct Hin as [Hin|[Heq|[]]]; [eauto|]. inversion Heq; subst.
       apply Hrt. eapply rk_mono; eauto. }
-    destruct (p_marker (get_tok s2 (S i))).
+    destruct (p_marker (get_tok s2 (S i))) as [mk|].
     + apply (G_add E1 m (Some k)); auto; [left; reflexivity|].
       split; [apply Hrt; apply (G_rid _ _ _ _ H3)|]. split; intros ? Hx; discriminate Hx.
-    + match goal with |- context [if ?own then upd_tok (S i) (set_marker true) ?s3 else ?s3] =>
-        assert (H4 : Good E1 m [Some k] (if own then upd_tok (S i) (set_marker true) s3 else s3)) end.
+    + match goal with |- context [if ?own then upd_tok (S i) (set_marker ?mk) ?s3 else ?s3] =>
+        assert (H4 : Good E1 m [Some k] (if own then upd_tok (S i) (set_marker mk) s3 else s3)) end.
       { destruct p; [exact H3|]. apply G_upd_tok; [|exact H3]. intros j q _ _ Hq. exact Hq. }
       apply (G_add E1 m (Some k)); auto; [left; reflexivity|].
       split; [apply Hrt; apply (G_rid _ _ _ _ H4)|]. split; intros ? Hx; discriminate Hx.
